@@ -15,13 +15,16 @@ DEMO_DIR=$(python3 -c "import json;print(json.load(open('$SRC/meta.json')).get('
 DEMO_CMD=$(python3 -c "import json;print(json.load(open('$SRC/meta.json')).get('demo_cmd',''))")
 R="$SRC/verify.log"; : > "$R"
 if ! git apply --check "$SRC/patch.diff" 2>>"$R"; then echo "RESULT $NAME patch-does-not-apply" | tee -a "$R"; exit 1; fi
-# demo without patch
-cp "$SRC"/*_test.go "$DEMO_DIR"/ 2>/dev/null
-( eval "$DEMO_CMD" ) >>"$R" 2>&1; A=$?
+run_demo() {
+  mkdir -p _seed; cp "$SRC"/*.go "$SRC"/meta.json _seed/ 2>/dev/null
+  case "$DEMO_CMD" in *"cp "*) ;; *) cp "$SRC"/*_test.go "$DEMO_DIR"/ 2>/dev/null ;; esac
+  ( eval "$DEMO_CMD" ) >>"$R" 2>&1; local rc=$?
+  git clean -fdqx
+  return $rc
+}
+run_demo; A=$?
 git apply "$SRC/patch.diff"
-( eval "$DEMO_CMD" ) >>"$R" 2>&1; B=$?
-# suite with patch, demo removed
-for f in "$SRC"/*_test.go; do rm -f "$DEMO_DIR/$(basename $f)"; done
+run_demo; B=$?
 go build ./... >>"$R" 2>&1; C=$?
 go test -vet=off -count=1 ./... >"$SRC/suite.log" 2>&1; D=$?
 if [ $D -ne 0 ]; then # retry flaky listeners/timing
